@@ -1217,6 +1217,14 @@ class Qube(object):
         if 'wod' in self._cache_:
             del self._cache_['wod']
 
+        # A single Python value may have been replaced by one of another data
+        # type (an int plus a float); the default value always has the data type
+        # of the values
+        if not isinstance(self._values_, np.ndarray):
+            dtype = Qube._dtype(self._values_)
+            if Qube._dtype(self._default_) != dtype:
+                self._default_ = Qube._casted_to_dtype(self._default_, dtype)
+
     def _set_mask_(self, mask, antimask=None, check=False):
         """Low-level method to update the mask of an array.
 
